@@ -21,7 +21,7 @@
 (*             n_true / n_false (non-vacuity: how often the reference side *)
 (*             was true / false among the definite evaluations)            *)
 (***************************************************************************)
-EXTENDS MiniGringo, Analysis, Tptp, Json, IOUtils, FiniteSetsExt, SequencesExt
+EXTENDS MiniGringo, Analysis, Tptp, Translations, Json, IOUtils, FiniteSetsExt, SequencesExt
 
 Rec == ndJsonDeserialize(IOEnv.VERIF_TRACE)
 Lo == atoi(IOEnv.VERIF_LO)          \* this JVM handles lines Lo .. Hi (sharding)
@@ -209,7 +209,12 @@ EvalRule(r) ==
       gm == IF r.mu = r.tau THEN gt ELSE IF hasNat /\ r.mu = r.nat THEN gn ELSE Ground(r.mu, EmptyEnv)
       muIsOne == r.mu = r.tau \/ (hasNat /\ r.mu = r.nat)
   IN IF Prop = "SELF"   \* machinery self-check (MC_Eval of the plan): the scheduled evaluator against the naive one, on anthem's own output
-     THEN <<Out(r, "SELF.scheduled_vs_naive", HTEquiv(gt, Ground0(r.tau, EmptyEnv), <<>>), "")>>
+     THEN IF "naive" \in DOMAIN r
+          THEN <<Out(r, "SELF.scheduled_vs_naive", HTEquiv(gt, Ground0(r.tau, EmptyEnv), <<>>), "")>>
+          \* MC_Sem: the reference translation (Translations.tla) against the reference semantics (MiniGringo.tla), and anthem against it
+          ELSE LET gref == Ground(RefTau(r.rule), EmptyEnv)
+               IN <<Out(r, "SELF.reference_translation_vs_reference_semantics", HTEquiv(gref, gr, <<>>), ""),
+                    Out(r, "SELF.anthem_vs_reference_translation", HTEquiv(gt, gref, <<>>), "")>>
      ELSE IF Prop = "C01" THEN <<Out(r, "C01.tau_vs_semantics", HTEquiv(gt, gr, <<>>), "")>> \o
           \* texts printed by the reference grammar (Syntax.tla) carry the tree they mean: the parser must have returned it
           (IF "exp" \in DOMAIN r
